@@ -1,8 +1,7 @@
 (* M2 - specification side of C14/C15 (definitions only): the documented field requirements
    [wf_media] / [wf_multivariant], the field-by-field equivalence of the round trip
-   [media_eqvb] / [multivariant_eqvb] (durations to 10 us, date-times to 1 ms), the assumed
-   envelope of the scalar oracles [oracle_ok], and the images of a value under the three
-   Marshal defects of finding F4. *)
+   [media_eqvb] / [multivariant_eqvb] (durations to 10 us, date-times to 1 ms) and the assumed
+   envelope of the scalar oracles [oracle_ok]. *)
 From Coq Require Import List ZArith Bool String Ascii.
 From GoHls Require Import Model.PlaylistBase Model.Playlist.
 Import ListNotations.
@@ -265,29 +264,3 @@ Definition multivariant_fixpoint_ok (O : oracles) (p : Multivariant) : bool :=
   | Ok p' => String.eqb (multivariant_marshal O p') (multivariant_marshal O p)
   | _ => false
   end.
-
-(* ---------- finding F4: what the three Marshal defects do to a value ---------- *)
-(* (a) EXT-X-DISCONTINUITY-SEQUENCE is printed with the value of MediaSequence;
-   (b) EXT-X-START of a media playlist is never printed;
-   (c) EXT-X-SERVER-CONTROL without CAN-BLOCK-RELOAD starts with a comma, so the first
-       printed attribute is read back under the unknown name ",PART-HOLD-BACK" / ",CAN-SKIP-UNTIL" *)
-Definition f4_server_control (t : MediaServerControl) : MediaServerControl :=
-  if sc_canblockreload t then t
-  else match sc_partholdback t with
-       | Some _ => {| sc_canblockreload := false; sc_partholdback := None;
-                      sc_canskipuntil := sc_canskipuntil t |}
-       | None => sc0
-       end.
-
-Definition f4_image (p : Media) : Media :=
-  m_set_servercontrol
-    (m_set_start
-       (m_set_discseq p (match m_discseq p with Some _ => Some (m_mediasequence p) | None => None end))
-       None)
-    (option_map f4_server_control (m_servercontrol p)).
-
-(* the values the three defects leave alone *)
-Definition f4_free (p : Media) : bool :=
-  match m_discseq p with Some d => d =? m_mediasequence p | None => true end
-  && negb (is_some (m_start p))
-  && match m_servercontrol p with Some t => sc_canblockreload t | None => true end.
